@@ -1,5 +1,6 @@
 //! Per-property scenario generators, runners (oracles) and shrinkers.
 
+pub mod c03;
 pub mod c04;
 
 use crate::harness::{Cfg, RunResult, Tier};
@@ -20,13 +21,15 @@ pub struct Doc {
 #[derive(Clone, Debug, Serialize, Deserialize)]
 pub enum Body {
     C04(c04::C04Doc),
+    C03(c03::C03Doc),
 }
 
-pub const PROPS: [&str; 1] = ["C04"];
+pub const PROPS: [&str; 2] = ["C03", "C04"];
 
 pub fn generate(prop: &str, seed: u64, tier: Tier) -> Doc {
     match prop {
         "C04" => c04::generate(seed, tier),
+        "C03" => c03::generate(seed, tier),
         _ => panic!("HARNESS: unknown property {}", prop),
     }
 }
@@ -35,6 +38,7 @@ pub fn generate(prop: &str, seed: u64, tier: Tier) -> Doc {
 pub fn directed(prop: &str) -> Vec<Doc> {
     match prop {
         "C04" => c04::directed(),
+        "C03" => c03::directed(),
         _ => vec![],
     }
 }
@@ -42,6 +46,7 @@ pub fn directed(prop: &str) -> Vec<Doc> {
 pub fn run_doc(doc: &Doc, trace: bool) -> RunResult {
     match &doc.body {
         Body::C04(b) => c04::run(doc, b, trace),
+        Body::C03(b) => c03::run(doc, b, trace),
     }
 }
 
@@ -85,6 +90,16 @@ pub fn shrink_candidates(doc: &Doc) -> Vec<Doc> {
                 out.push(d);
             }
         }
+        Body::C03(b) => {
+            for nb in c03::shrink(b) {
+                if !c03::well_formed(&nb) {
+                    continue;
+                }
+                let mut d = doc.clone();
+                d.body = Body::C03(nb);
+                out.push(d);
+            }
+        }
     }
     out
 }
@@ -92,6 +107,7 @@ pub fn shrink_candidates(doc: &Doc) -> Vec<Doc> {
 pub fn probe_names(prop: &str) -> &'static [&'static str] {
     match prop {
         "C04" => &c04::PROBES,
+        "C03" => &c03::PROBES,
         _ => &[],
     }
 }
@@ -100,6 +116,7 @@ pub fn probe_names(prop: &str) -> &'static [&'static str] {
 pub fn mandatory_probes(prop: &str) -> Vec<usize> {
     match prop {
         "C04" => (0..c04::PROBES.len()).collect(),
+        "C03" => (0..c03::PROBES.len()).collect(),
         _ => vec![],
     }
 }
